@@ -175,6 +175,7 @@ void harness_any_f2(void) { any_src(wuffs_demo__parser__f2); }
 void harness_any_f3(void) { any_src(wuffs_demo__parser__f3); }
 void harness_any_f4(void) { any_src(wuffs_demo__parser__f4); }
 void harness_any_f5(void) { any_src(wuffs_demo__parser__f5); }
+void harness_any_f7(void) { any_src(wuffs_demo__parser__f7); }
 void harness_any_f6(void) { any_io(wuffs_demo__parser__f6); }
 void harness_any_transform(void) { any_io(call_transform); }
 
